@@ -77,8 +77,14 @@ func updateSelfRefs(node core_domain.CodeDataStruct, method core_domain.CodeFunc
 
 	for i, line := range lines {
 		if i == method.Position.StartLine-1 {
-			newLine := line[:method.Position.StartLinePosition] + info.Method + line[method.Position.StopLinePosition:]
-			lines[i] = newLine
+			// positions are counted in characters, not in bytes
+			runes := []rune(line)
+			start := method.Position.StartLinePosition
+			stop := method.Position.StopLinePosition
+			if start < 0 || stop < start || stop > len(runes) {
+				continue
+			}
+			lines[i] = string(runes[:start]) + info.Method + string(runes[stop:])
 		}
 	}
 	output := strings.Join(lines, "\n")
